@@ -58,8 +58,20 @@ type S7 struct {
 	K int
 }
 
+// S9: a pointer-receiver method that hands out a pointer into its receiver
+type S9 struct {
+	X     int
+	inner Base
+}
+
+func (s *S9) Cust() *Base { return &s.inner }
+
 func shapeValue(sh string) interface{} {
 	switch sh {
+	case "S9":
+		return S9{X: 91, inner: Base{W: "w", X: 33}}
+	case "S9alt":
+		return S9{X: 91, inner: Base{W: "v", X: 34}}
 	case "S1":
 		return S1{X: 11, Y: "1"}
 	case "S2":
@@ -86,6 +98,7 @@ type AObj struct {
 	Ptr    bool   `json:"ptr"`
 	G      string `json:"g"`
 	EmbNil bool   `json:"embnil"`
+	Alt    bool   `json:"alt"`
 }
 
 func buildAObj(o AObj) interface{} {
@@ -96,11 +109,14 @@ func buildAObj(o AObj) interface{} {
 		case "msi":
 			return map[string]int{"X": 8, "Y": 9}
 		}
-		return map[string]interface{}{"X": 8, "Y": 9}
+		return map[string]interface{}{"X": 8, "Y": 9, "0": 7, "": 6, "1": 5}
 	}
 	sh := o.Sh
 	if o.EmbNil {
 		sh += "nil"
+	}
+	if o.Alt {
+		sh += "alt"
 	}
 	v := shapeValue(sh)
 	if o.Ptr && v != nil {
@@ -162,6 +178,9 @@ func runAttrHist(c *ACase) (res Result) {
 		twig.VerifSetAttrCacheMax(c.Cap)
 	}
 	e := twig.New()
+	// every lookup is repeated at the end in ONE render that keeps all results alive at the same time
+	var jointSrc, jointWant strings.Builder
+	jointCtx := map[string]interface{}{}
 	for i, op := range c.Ops {
 		if op.Flood > 0 {
 			trail = append(trail, fmt.Sprintf("flood(%d)", op.Flood))
@@ -195,12 +214,34 @@ func runAttrHist(c *ACase) (res Result) {
 				return
 			}
 			out, err := e.Render("t", map[string]interface{}{"o": obj})
+			if err == nil && form == "attr" {
+				fmt.Fprintf(&jointSrc, "{%% set r%d = o%d.%s %%}", i, i, op.N)
+				jointCtx[fmt.Sprintf("o%d", i)] = obj
+				jointWant.WriteString(out + "|")
+			}
 			if op.Any {
 				continue
 			}
 			if err != nil || out != want {
 				res.Pass = false
 				res.Fails = append(res.Fails, Fail{Run: fmt.Sprintf("op%d", i+1), Why: "member", Got: fmt.Sprintf("%q err=%v", out, err), Want: want, Src: strings.Join(trail, " ; ")})
+				return
+			}
+		}
+	}
+	if jointSrc.Len() > 0 {
+		for i := range c.Ops {
+			if _, ok := jointCtx[fmt.Sprintf("o%d", i)]; ok {
+				fmt.Fprintf(&jointSrc, "{{ r%d }}|", i)
+			}
+		}
+		trail = append(trail, "joint")
+		if err := e.RegisterString("joint", jointSrc.String()); err == nil {
+			out, err := e.Render("joint", jointCtx)
+			if err != nil || out != jointWant.String() {
+				res.Pass = false
+				res.Fails = append(res.Fails, Fail{Run: "joint", Why: "results-not-independent", Got: fmt.Sprintf("%q err=%v", out, err), Want: jointWant.String(),
+					Src: strings.Join(trail, " ; ") + " ; " + jointSrc.String()})
 				return
 			}
 		}
